@@ -257,14 +257,15 @@ func dbCases(thorough bool) []*DBCase {
 	return out
 }
 
-func runDBCases(r *ev.Run, g *gstat, cases []*DBCase) {
-	parallel(cases, func(c *DBCase) {
+func runDBCases(r *sink, g *gstat, cases []*DBCase) {
+	parallel(r, cases, func(c *DBCase) {
 		body, err := runDB(c)
 		if err != nil {
 			ev.Fatal("db %s: service returned an error: %v", c.Kind, err)
 		}
 		g.add(body)
-		r.Distinct(fmt.Sprintf("db|%s|%v|%v|%d", c.Kind, c.Series, c.Sizes, c.N))
+		debugBody(body)
+		r.Distinct_(fmt.Sprintf("db|%s|%v|%v|%d", c.Kind, c.Series, c.Sizes, c.N))
 		if b := checkDB(c, body); b != nil {
 			r.Outcome(b.Class)
 			violate(r, "db", c, b)
